@@ -88,6 +88,13 @@ def run_order(gfa, outdir, order, by_chrom, with_seq, hashseed=None, casedir=Non
     # order_gfa creates a missing output directory itself (also nested): leave that to it every other time
     if stable_hash_int(outdir) % 2 == 0:
         os.makedirs(outdir, exist_ok=True)
+        if stable_hash_int(outdir) % 4 == 0 and not by_chrom:
+            # a re-used output directory: the combined files of an earlier run are already there
+            base = os.path.basename(gfa).split(".")[0]
+            with open(os.path.join(outdir, base + "-complete.csv"), "w") as f:
+                f.write("Name,Color,SN,SO,BO,NO\nzz,blue,chrStale,0,0,0\n")
+            with open(os.path.join(outdir, base + "-complete.gfa"), "w") as f:
+                f.write("S\tzz\tA\tLN:i:1\tSN:Z:chrStale\tSO:i:0\tSR:i:0\tBO:i:0\tNO:i:0\n")
     else:
         outdir = os.path.join(outdir, "new", "dir")
     r = OrderRun()
